@@ -611,12 +611,12 @@ func check(prop, tier string) int {
 	}
 	fmt.Printf("%s %s: seed=%d runs=%d nontrivial=%d distinct=%d states=%d faults=%d violations=%d known=%d wall=%.0fs\n",
 		prop, tier, seed, runs, nontriv, dn, len(states), sum(faults), violations, knownSeen, wall)
+	if violations > 0 {
+		return 1
+	}
 	if runs == 0 {
 		fmt.Fprintln(os.Stderr, "verif: no runs completed")
 		return 2
-	}
-	if violations > 0 {
-		return 1
 	}
 	return 0
 }
